@@ -15,6 +15,7 @@ import (
 	"net/url"
 	"strings"
 	"sync"
+	"sync/atomic"
 
 	"foxverif/kit"
 	"foxverif/ref"
@@ -64,6 +65,8 @@ func (o opt) String() string {
 	}
 	return fmt.Sprintf("annot(k%d=%d)", o.Key, o.Val)
 }
+
+var defaultUses atomic.Int64
 
 type annotKey struct{ n int }
 
@@ -355,7 +358,38 @@ func check(run *kit.Run, c caseT) {
 				}
 			}
 		}
-		// a router-wide middleware: every route is created with it, however the request reaches the route
+		// router-wide middleware: every route is created with all of it, in registration order, however the request
+		// reaches the route and wherever DefaultOptions (which puts its own two in front) is placed among the options
+		var order []string
+		tagmw := func(name string) fox.MiddlewareFunc {
+			return func(next fox.HandlerFunc) fox.HandlerFunc {
+				return func(c fox.Context) { order = append(order, name); next(c) }
+			}
+		}
+		nTags := 3 + len(c.Route)%3
+		defaultAt := (len(c.Global) + len(c.Route) + c.Path) % (nTags + 2) // == nTags+1: DefaultOptions not used
+		// DefaultOptions' Logger writes every request to the process' standard output: only the first few hundred cases
+		// of a run use it (all positions among 3..5 entries are covered many times over)
+		if defaultAt <= nTags && defaultUses.Add(1) > 400 {
+			defaultAt = nTags + 1
+		}
+		for i := 0; i < nTags; i++ {
+			if defaultAt == i {
+				gopts = append(gopts, fox.DefaultOptions())
+			}
+			if i%2 == 0 {
+				gopts = append(gopts, fox.WithMiddleware(tagmw(fmt.Sprintf("m%d", i))))
+			} else {
+				gopts = append(gopts, fox.WithMiddlewareFor(fox.RouteHandler|fox.NoRouteHandler, tagmw(fmt.Sprintf("m%d", i))))
+			}
+		}
+		if defaultAt == nTags {
+			gopts = append(gopts, fox.DefaultOptions())
+		}
+		wantOrder := ""
+		for i := 0; i < nTags; i++ {
+			wantOrder += fmt.Sprintf("m%d ", i)
+		}
 		gopts = append(gopts, fox.WithMiddleware(func(next fox.HandlerFunc) fox.HandlerFunc {
 			return func(c fox.Context) { seen["router-wide middleware"] = "ran"; next(c) }
 		}))
@@ -474,6 +508,29 @@ func check(run *kit.Run, c caseT) {
 		if seen["router-wide middleware"] != "ran" {
 			problems = append(problems, "middleware: the router-wide middleware did not run for a direct request to the route")
 		}
+		if got := strings.Join(order, " ") + " "; got != wantOrder {
+			problems = append(problems, fmt.Sprintf("middleware: the route ran the router-wide middleware [%s], registered were [%s] (DefaultOptions at position %d of %d)", strings.TrimSpace(got), strings.TrimSpace(wantOrder), defaultAt, nTags))
+		}
+		// the very same request object dispatched twice (a handler that rewrites the target and hands the request back to
+		// the router): each dispatch resolves the client IP with the resolver in force for the handler that runs
+		{
+			rq := &http.Request{Method: "GET", Host: host, URL: &url.URL{Path: "/definitely/not/registered"}, Header: http.Header{}, RemoteAddr: "192.0.2.9:1", Proto: "HTTP/1.1", ProtoMajor: 1, ProtoMinor: 1}
+			delete(seen, "route")
+			delete(seen, "noroute")
+			f.ServeHTTP(&nullW{http.Header{}}, rq)
+			rq.URL.Path = path
+			f.ServeHTTP(&nullW{http.Header{}}, rq)
+			if seen["noroute"] != name(g.res) || seen["route"] != name(want.res) {
+				problems = append(problems, fmt.Sprintf("Context.ClientIP for one request object dispatched first to the no-route handler and then to the route gives %q and %q, the resolvers in force give %q and %q", seen["noroute"], seen["route"], name(g.res), name(want.res)))
+			}
+			delete(seen, "noroute")
+			rq.URL.Path = "/definitely/not/registered"
+			f.ServeHTTP(&nullW{http.Header{}}, rq)
+			if seen["noroute"] != name(g.res) {
+				problems = append(problems, fmt.Sprintf("Context.ClientIP for one request object dispatched to the route and then to the no-route handler gives %q there, the router-wide resolver gives %q", seen["noroute"], name(g.res)))
+			}
+		}
+		order = order[:0]
 		mkreq := func(p string) *http.Request {
 			return &http.Request{Method: "GET", Host: host, URL: &url.URL{Path: p}, Header: http.Header{}, RemoteAddr: "192.0.2.9:1", Proto: "HTTP/1.1", ProtoMajor: 1, ProtoMinor: 1}
 		}
